@@ -54,6 +54,7 @@ class Machine:
         self.loads = 0
         self.stores = 0
         self.mem = {}
+        self.writes = {}       # buffer -> per-cell store count
         self.rm = z3.RNE()
 
     def buffer(self, name, values):
@@ -164,6 +165,8 @@ class Machine:
             if not (0 <= p.off < len(buf)):
                 raise IRError(f"out-of-bounds load {p.buf}[{p.off}] (size {len(buf)})")
             self.loads += 1
+            if buf[p.off] is None:
+                raise IRError(f"load of an uninitialised cell {p.buf}[{p.off}]")
             env[m.group(1)] = buf[p.off]
             return
         m = re.match(rf"store (\w+) ([^,]+), \w+\* ({_NAME})", ins)
@@ -174,6 +177,8 @@ class Machine:
                 raise IRError(f"out-of-bounds store {p.buf}[{p.off}] (size {len(buf)})")
             self.stores += 1
             buf[p.off] = self._val(m.group(2), env, m.group(1))
+            if p.buf in self.writes:
+                self.writes[p.buf][p.off] += 1
             return
         m = re.match(rf"({_NAME}) = (fsub|fmul|fadd|fdiv) (?:[a-z]+ )*?(float|double) ([^,]+), (.+)", ins)
         if m:
@@ -205,6 +210,21 @@ class Machine:
         if m:
             env[m.group(1)] = z3.fpSqrt(self.rm, self._val(m.group(4), env, m.group(2)))
             return
+        m = re.match(rf"({_NAME}) = (?:tail )?call i8\* @shim_result_buffer\(i64 (?:noundef )?([^,]+), i64 (?:noundef )?([^)]+)\)", ins)
+        if m:
+            n = self._val(m.group(2), env)
+            if n < 0:
+                raise IRError("negative result size")
+            self.mem["R"] = [None] * n
+            self.writes["R"] = [0] * n
+            env[m.group(1)] = Ptr("R", 0)
+            return
+        m = re.match(rf"({_NAME}) = bitcast [^ ]+ ({_NAME}) to ", ins)
+        if m:
+            env[m.group(1)] = self._val(m.group(2), env)
+            return
+        if re.match(r"(?:tail )?call void @llvm\.(lifetime|dbg)", ins):
+            return
         m = re.match(rf"br i1 ({_NAME}|true|false), label %([\w.]+), label %([\w.]+)", ins)
         if m:
             c = self._val(m.group(1), env)
@@ -233,3 +253,51 @@ def decide(neg_goal, timeout_s=60):
     t = time.time()
     r = str(s.check())
     return r, time.time() - t, (s.model() if r == "sat" else None)
+
+
+NATIVE_MAIN = r"""
+#include <cstdio>
+#include <cstdlib>
+#include <cstring>
+#include <vector>
+static void *g_res = nullptr; static ssize_t g_n = 0, g_sz = 0;
+extern "C" void *shim_result_buffer(ssize_t n, ssize_t sz) { g_n = n; g_sz = sz; g_res = malloc((n > 0 ? n : 1) * sz); memset(g_res, 0xFF, (n > 0 ? n : 1) * sz); return g_res; }
+template <class T> static int run(int rank, const char *fn, int argc, char **argv);
+int main(int argc, char **argv) {
+    // argv: <wrapper> <X> <L1> <L2> values of A ... values of B ...
+    std::string w = argv[1]; ssize_t X = atol(argv[2]), L1 = atol(argv[3]), L2 = atol(argv[4]);
+    bool dbl = w.back() == 'd'; bool r32 = w.substr(0, 3) == "w32";
+    ssize_t na = (r32 ? X : 1) * L1 * 3, nb = L2 * 3;
+    std::vector<double> av(na), bv(nb);
+    for (ssize_t i = 0; i < na; i++) av[i] = strtod(argv[5 + i], nullptr);
+    for (ssize_t i = 0; i < nb; i++) bv[i] = strtod(argv[5 + na + i], nullptr);
+    std::vector<float> af(av.begin(), av.end()), bf(bv.begin(), bv.end());
+    #define CALL22(N, T, AV, BV) if (w == #N) N(AV.data(), L1, BV.data(), L2);
+    #define CALL32(N, T, AV, BV) if (w == #N) N(AV.data(), X, L1, BV.data(), L2);
+    CALL22(w22_eu_f, float, af, bf) CALL22(w22_eu2_f, float, af, bf) CALL22(w22_eu_d, double, av, bv) CALL22(w22_eu2_d, double, av, bv)
+    CALL32(w32_eu_f, float, af, bf) CALL32(w32_eu2_f, float, af, bf) CALL32(w32_eu_d, double, av, bv) CALL32(w32_eu2_d, double, av, bv)
+    printf("%ld\n", (long) g_n);
+    for (ssize_t i = 0; i < g_n; i++) { if (dbl) printf("%.17g\n", ((double *) g_res)[i]); else printf("%.9g\n", (double) ((float *) g_res)[i]); }
+    return 0;
+}
+"""
+
+
+def native_run(driver_src: str, wrapper: str, X: int, L1: int, L2: int, a, b, repo="/repo"):
+    """replay on real code: the same driver compiled to a native executable by the real compiler and run on concrete inputs.
+    Returns the list of result cells (NaN = 0xFF.. pattern = never written)."""
+    d = tempfile.mkdtemp(prefix="irfp_native_")
+    try:
+        with open(os.path.join(d, "drv.cpp"), "w") as f:
+            f.write("#include <string>\n" + driver_src + NATIVE_MAIN)
+        exe = os.path.join(d, "drv")
+        p = subprocess.run(["clang++-14", "-O1", "-std=c++17", f"-I{SHIM}", f"-I{repo}/molli_xt", "-o", exe, os.path.join(d, "drv.cpp")], capture_output=True, text=True)
+        if p.returncode != 0:
+            raise IRError("native build failed: " + p.stderr[-1500:])
+        r = subprocess.run([exe, wrapper, str(X), str(L1), str(L2)] + [repr(float(v)) for v in list(a) + list(b)], capture_output=True, text=True, timeout=60)
+        if r.returncode != 0:
+            raise IRError(f"native run exit {r.returncode}: {r.stderr[-500:]}")
+        lines = r.stdout.split()
+        return [float(x) for x in lines[1:1 + int(lines[0])]]
+    finally:
+        shutil.rmtree(d, ignore_errors=True)
